@@ -7,7 +7,7 @@ PROP = {
         job("udp-sessions", "core", "./server/", "server",
             ["harness/core/server/c07c08_fakes_test.go", "harness/core/server/c07c08_wb_table_test.go",
              "harness/core/server/c07_sessions_test.go"],
-            "^TestVerifC07", ["udp-timelines", "udp-boundary", "udp-slowdial", "udp-endsweep", "udp-writegate", "udp-bufreuse", "udp-realio"], race=True,
+            "^TestVerifC07", ["udp-timelines", "udp-boundary", "udp-slowdial", "udp-endsweep", "udp-writegate", "udp-bufreuse", "udp-realio", "udp-fraginterleave"], race=True,
             timeout_quick=300, timeout_thorough=3600),
     ],
     "race_oracle": True,
@@ -42,7 +42,11 @@ PROP = {
              "10.001 / 12 / 40 s of virtual time and then succeed or fail (idle timeout 2 min), followed by nothing / more "
              "traffic / a full drain, with 0/2 bystander sessions queued behind the dial; plus 40 ordinary timelines "
              "through the real udpIOImpl; verdict by the socket census (every socket the outbound ever returned is closed "
-             "exactly once). A case is "
+             "exactly once). fraginterleave: fragmented datagrams of 2..4 sessions arrive interleaved fragment by fragment with the "
+             "SAME packet ID and fragment count in every session, some left incomplete, sessions with / without an open "
+             "socket; for 2 sessions x 2 fragments every order of every subset (>=2) of the 4 fragments, larger shapes "
+             "shuffled / round-robin / late tail; every byte a socket writes must be a message of its own session, and a "
+             "socket is opened only for a session that has completely sent a message. A case is "
              "non-trivial when at least one idle expiry and at least one delivered reply occurred; distinct = distinct "
              "(timeout, script)."),
     "assumptions": [
